@@ -2,6 +2,7 @@ package simkit
 
 import (
 	"fmt"
+	"runtime"
 	"runtime/debug"
 	"strings"
 	"sync"
@@ -56,7 +57,11 @@ type Env struct {
 	t0     time.Time
 	infra  string
 	limit  *time.Timer
+	cleanup []func()
 }
+
+// OnCleanup registers a function that runs after the workload returned.
+func (e *Env) OnCleanup(f func()) { e.cleanup = append(e.cleanup, f) }
 
 // SetSimLimit replaces the cap on simulated time of this run (default 6h).
 func (e *Env) SetSimLimit(d time.Duration) {
@@ -223,6 +228,10 @@ func (e *Env) Logf(format string, args ...any) {
 func RunBubble(t *testing.T, spec SchedSpec, seed uint64, body func(e *Env)) (res Result) {
 	installHooks()
 	lib.VerifResetPools()
+	// no garbage collection inside a run: sync.Pool contents (buffer reuse, and with it the
+	// number of reads a frame needs) must not depend on when the collector happens to run
+	gcOld := debug.SetGCPercent(-1)
+	defer debug.SetGCPercent(gcOld)
 	var env *Env
 	var s *Sched
 	mainDone := false
@@ -253,11 +262,15 @@ func RunBubble(t *testing.T, spec SchedSpec, seed uint64, body func(e *Env)) (re
 	lib.VerifUniq = Mix(seed, 0x11d)&((1<<60)-1) | 1<<40
 	defer func() {
 		clearMapSeed()
+		lib.VerifDial, lib.VerifListen = nil, nil
 		curSched.Store(nil)
 		if r := recover(); r != nil {
 			msg := fmt.Sprint(r)
 			finish()
 			if strings.Contains(msg, "deadlock") {
+				buf := make([]byte, 1<<18)
+				n := runtime.Stack(buf, true)
+				msg += "\n" + blockedSummary(string(buf[:n]))
 				res.Deadlock = msg
 				if !mainDone && res.Violation == nil && res.Infra == "" {
 					res.Deadlock = "main task never finished: " + msg
@@ -283,6 +296,12 @@ func RunBubble(t *testing.T, spec SchedSpec, seed uint64, body func(e *Env)) (re
 				}
 			}()
 			body(env)
+			// everything the run started must be able to finish on its own once the main
+			// task returns: cut the simulated network and let pending deadlines expire
+			for _, f := range env.cleanup {
+				f()
+			}
+			time.Sleep(15 * time.Second)
 		}()
 		s.loop()
 		s.Abort()
@@ -293,4 +312,23 @@ func RunBubble(t *testing.T, spec SchedSpec, seed uint64, body func(e *Env)) (re
 	})
 	finish()
 	return res
+}
+
+// blockedSummary keeps, for every goroutine of a bubble, its header and the first frames.
+func blockedSummary(dump string) string {
+	var out []string
+	for _, g := range strings.Split(dump, "\n\n") {
+		if !strings.Contains(g, "synctest bubble") {
+			continue
+		}
+		lines := strings.Split(g, "\n")
+		if len(lines) > 7 {
+			lines = lines[:7]
+		}
+		out = append(out, strings.Join(lines, " | "))
+		if len(out) > 12 {
+			break
+		}
+	}
+	return strings.Join(out, "\n")
 }
